@@ -15,14 +15,15 @@ import sfc_models.sector_definitions as sd
 import sfc_models.sector
 
 
-def build(name, overrides=None):
+def build(name, overrides=None, book=False):
     B = {'SIM': ch3.SIM, 'SIMEX1': ch3.SIMEX1, 'PC': ch4.PC}[name]
-    b = B('CA', use_book_exogenous=False)
+    b = B('CA', use_book_exogenous=book)
     m = b.build_model()
     gov = 'TRE' if name == 'PC' else 'GOV'
-    m.AddExogenous(gov, 'DEM_GOOD', '[20.]*5')
-    if name == 'PC':
-        m.AddExogenous('DEP', 'r', '[.025]*5')
+    if not book:
+        m.AddExogenous(gov, 'DEM_GOOD', '[20.]*5')
+        if name == 'PC':
+            m.AddExogenous('DEP', 'r', '[.025]*5')
     if overrides:
         hh, tf = m['CA']['HH'], m['CA']['TF']
         if 'a1' in overrides: hh.AlphaIncome = overrides['a1']
@@ -131,8 +132,10 @@ def stock_transport():
     out = []
     G, th, a1, a2 = 20.0, 0.2, 0.6, 0.4
     for name in ('SIM', 'SIMEX1', 'PC'):
-        for V0, B0, YD0 in ((80.0, 50.0, 60.0), (80.0, 0.0, 60.0), (0.0, 0.0, 0.0), (40.0, 40.0, 16.0)):
-            ctx, gov = build(name)
+        # the last element: the builder's own book stocks are stated first (use_book_exogenous), the user's afterwards - the later statement is the one in force
+        for V0, B0, YD0, book in ((80.0, 50.0, 60.0, False), (80.0, 0.0, 60.0, False), (0.0, 0.0, 0.0, False), (40.0, 40.0, 16.0, False),
+                                  (100.0, 72.0, 12.0, True), (40.0, 35.0, 100.0, True), (95.0, 70.0, 20.0, True)):
+            ctx, gov = build(name, book=book)
             m = ctx.model
             m.AddInitialCondition('HH', 'F', V0)
             m.AddInitialCondition('HH', 'AfterTax', YD0)
@@ -142,7 +145,7 @@ def stock_transport():
             try:
                 m.main()
             except Exception as e:
-                out.append((name, (V0, B0, YD0), False, 'main raises %r' % (e,)))
+                out.append((name, (V0, B0, YD0) + ((book,) if book else ()), False, 'main raises %r' % (e,)))
                 continue
             ts = m.EquationSolver.TimeSeries
             ok = abs(ts['HH__F'][0] - V0) < 1e-12 and abs(ts['HH__AfterTax'][0] - YD0) < 1e-12
@@ -158,8 +161,9 @@ def stock_transport():
                 Y = (G + a1 * (1 - th) * I + a2 * V0) / (1 - a1 * (1 - th))
             got = ts['GOOD__SUP_GOOD'][1]
             detail = 'k=0 stocks %r; Y(1) framework %.6f book %.6f' % ({v: ts[v][0] for v in ('HH__F', 'HH__AfterTax')}, got, Y)
-            ok = ok and abs(got - Y) < 1e-3
-            out.append((name, (V0, B0, YD0), ok, detail))
+            if not book:
+                ok = ok and abs(got - Y) < 1e-3        # (with the book paths the k=1 spending and rate are the book's; only the stocks are compared)
+            out.append((name, (V0, B0, YD0) + ((book,) if book else ()), ok, detail))
     return out
 
 
